@@ -40,6 +40,8 @@ func itemShapes(c *Counter) []Shaped {
 func itemShapesBase(c *Counter, mk func(n string, it ap.Item) Shaped) []Shaped {
 	return []Shaped{
 		mk("iri", c.ID("i")),
+		// an IRI is allowed what a URL is not: characters outside ASCII, left as they are
+		mk("iri-unicode", ap.IRI(string(c.ID("i"))+"/zoë/日本?q=é")),
 		mk("obj:Object", &ap.Object{ID: c.ID("o"), Type: ap.NoteType, Name: ap.DefaultNaturalLanguageValue("txt-n")}),
 		mk("obj:Object-idless", &ap.Object{Type: ap.ImageType, URL: c.ID("img")}),
 		mk("obj:Object-typeless", &ap.Object{Name: ap.DefaultNaturalLanguageValue("txt-tag")}),
@@ -225,6 +227,7 @@ func ShapesFor(f Field, c *Counter, gob bool) []Shaped {
 			{"endpoints-oauth-token", reflect.ValueOf(&ap.Endpoints{OauthTokenEndpoint: c.ID("ot")})},
 			{"endpoints-provide-key", reflect.ValueOf(&ap.Endpoints{ProvideClientKey: c.ID("pk")})},
 			{"endpoints-sign-key", reflect.ValueOf(&ap.Endpoints{SignClientKey: c.ID("sk")})},
+			{"endpoints-embedded", reflect.ValueOf(&ap.Endpoints{SharedInbox: &ap.OrderedCollection{ID: c.ID("shared-inbox"), Type: ap.OrderedCollectionType, TotalItems: 1}, UploadMedia: c.ID("up")})},
 			{"endpoints-all", reflect.ValueOf(&ap.Endpoints{SharedInbox: c.ID("shared"), UploadMedia: c.ID("up"), OauthAuthorizationEndpoint: c.ID("oa"), OauthTokenEndpoint: c.ID("ot"), ProvideClientKey: c.ID("pk"), SignClientKey: c.ID("sk")})},
 		}
 	}
